@@ -226,6 +226,8 @@ def analyse_cell(args):
         path = ''.join('/v_%s' % n for n in cfgc['url']) or '/'
         # the same application embedded under a prefix in a parent without resources/middlewares must run the same chain
         from clastic import Application as _App
+        sub0 = [(f.beh, z3.IntVal(0)) for f in finfos]
+        spec_events = seq_events(dom, z3.simplify(z3.substitute(spec_tr, *sub0)))
         try:
             parent = _App([('/emb', app)])
         except Exception as e:     # noqa
@@ -236,11 +238,55 @@ def analyse_cell(args):
             del REC[:]
             presp = parent.dispatch(Request(EnvironBuilder(path='/emb' + path).get_environ()))
             real_events = ['%s:%s' % (e[0], e[1]) for e in REC]
-            sub0 = [(f.beh, z3.IntVal(0)) for f in finfos]
-            spec_events = seq_events(dom, z3.simplify(z3.substitute(spec_tr, *sub0)))
             out['validated'] += 1
             if real_events != spec_events:
                 out['violations'].append(dict(kind='trace', beh={'embedded': True}, real=real_events, spec=spec_events, status=presp.status_code))
+        # ... and embedded in a parent that carries ITS OWN instances of the application-level middleware classes (unique
+        # types: the embedding application's instance serves) and its own values for the same resource names (the
+        # serving application's value wins): every function still receives each name from its declared source
+        try:
+            outer_mws = []
+            for m in merged:
+                if m['level'] == 'app':
+                    clone = type(info['mw_objs'][m['name']])()
+                    clone.sfx = '@outer'
+                    outer_mws.append(clone)
+            parent2 = _App([('/emb2', app)], middlewares=outer_mws,
+                           resources=dict((n, 'RESOURCE:outer:%s' % n) for n in cfgc['app_res']))
+        except Exception as e:     # noqa
+            parent2 = None
+            out['violations'].append(dict(kind='trace', beh={}, real=['embedding under a parent with own middleware instances failed: %r' % (e,)], spec=[], status=None))
+        if parent2 is not None:
+            BEH.clear()
+            del REC[:]
+            preq = Request(EnvironBuilder(path='/emb2' + path).get_environ())
+            presp = parent2.dispatch(preq)
+            real_events = ['%s:%s' % (e[0], e[1]) for e in REC]
+            out['validated'] += 1
+            if real_events != spec_events:
+                out['violations'].append(dict(kind='trace', beh={'embedded': 'own instances'}, real=real_events, spec=spec_events, status=presp.status_code))
+            app_level_funcs = set()
+            for m in merged:
+                if m['level'] == 'app':
+                    app_level_funcs.update(x for x in (m['request'], m['endpoint'], m['render']) if x)
+            for e in REC:
+                if e[0] != 'enter':
+                    continue
+                fname, got = e[1], e[2]
+                for n, val in got.items():
+                    w = exp[fname].get(n)
+                    if n == 'next' or w is None or isinstance(w, str):
+                        continue
+                    tag = str(w)
+                    if tag.startswith('PROV:'):
+                        prov_f = tag[5:].rsplit(':', 1)[0]
+                        want = 'PROVIDED:' + tag[5:] + ('@outer' if prov_f in app_level_funcs else '')
+                    elif tag.startswith('RES:'):
+                        want = 'RESOURCE:%s:%s' % ('outer' if n in cfgc['app_res'] else 'route', n)
+                    else:
+                        continue
+                    if val != want:
+                        out['violations'].append(dict(kind='value', beh={'embedded': 'own instances'}, function=fname, param=n, got=repr(val)[:80], expected=want))
         vectors = [vectors[0]] + vectors       # the all-pass vector twice: second time with doubled slashes in the URL
         for vi, vec in enumerate(vectors):
             BEH.clear()
